@@ -1,0 +1,12 @@
+//go:build verif
+// +build verif
+
+package agent
+
+import "time"
+
+// VerifSetTimeouts overrides the start and update timeouts (verification hook).
+func VerifSetTimeouts(start, update time.Duration) {
+	startTimeout = start
+	updateTimeout = update
+}
